@@ -162,6 +162,8 @@ def c17(run, a):
                 run.cov['distinct_nontrivial'] = run.cov.get('distinct_nontrivial', 0) + int(d.get('modelled', 0))
         if hrc != 0 and not any(l.startswith('oracle-fail') for l in out):
             run.breakage(f'adv stream ({profile}) harness died', f'rc={hrc}\n{herr[-400:]}')
+    if run.tier == 'thorough' and not a.replay:
+        checks_core.asan_support(run, a, [['adv']], 'C17')
     run.cov['rule'] = ("T2: fault injection — a Buf whose remaining()/chunk()/advance() follow a seeded script of lies (claimed remaining in "
                        "{0..5000}, real chunk length in {0..300}, panics at a chosen call) is passed to 20 consumers (copy_to_slice, try_copy_to_slice, "
                        "fixed and variable-width getters, get_u8, copy_to_bytes plain / through Take / through Chain, chunks_vectored through Take / Chain, "
